@@ -229,6 +229,8 @@ def _seed(kind):
             v, items = (2, 0), [(OP.DESTROY, None, P.mk("DESTROY", "2", version=(2, 0)))]
         elif kind == "locate-1.4":
             v, items = (1, 4), [(OP.LOCATE, None, P.mk("LOCATE", maximum_items=2, attributes=[P.name_attr("n0")]))]
+        elif kind == "encrypt-1.2":
+            v, items = (1, 2), [(OP.ENCRYPT, None, P.mk("ENCRYPT", "1", data=b"\x0a" * 12, iv=b"\x0b" * 16))]
         elif kind == "batch-1.2":
             v, items = (1, 2), [(OP.ACTIVATE, b"a", P.mk("ACTIVATE", "2")), (OP.GET, b"b", P.mk("GET", None))]
         else:
@@ -239,7 +241,7 @@ def _seed(kind):
         return v, bytes(st.buffer)
 
 
-SEEDS = ["get-1.2", "activate-1.0", "destroy-2.0", "locate-1.4", "batch-1.2"]
+SEEDS = ["get-1.2", "activate-1.0", "destroy-2.0", "locate-1.4", "batch-1.2", "encrypt-1.2"]
 
 
 def seed_len(kind):
@@ -311,6 +313,8 @@ def corrupt(kind, lo, hi):
             return False
         if calls and not parsed:
             return False                      # engine reached without a complete decode
+        if calls and R.structural_defect(buf) is not None:
+            return False                      # a request with inconsistent length fields was executed
         if len(calls) > 1:
             return False
         if not parsed:
@@ -321,6 +325,15 @@ def corrupt(kind, lo, hi):
                 return False
         return True
     return h
+
+
+def _struct_length_defect(kind, p, b):
+    seed = _seed(kind)[1]
+    return R.structural_defect(seed[:p] + bytes([b]) + seed[p + 1:]) == "structure"
+
+
+# helpers available to the region predicates of known_findings.json (evaluated on failing paths only)
+REGION_ENV = {"struct_length_defect": _struct_length_defect}
 
 
 def conditions(tier):
@@ -341,7 +354,7 @@ def conditions(tier):
                                    "flag, 0-2 common names, parser ok / KmipError / other exception, engine returns / "
                                    "KmipError / other exception, client maximum absent or any value in [0,4096]; "
                                    "iteration 2: good request, good client", timeout=900, part="one-response"))
-    seeds = SEEDS if thorough else ["get-1.2", "batch-1.2"]
+    seeds = SEEDS if thorough else ["get-1.2", "batch-1.2", "encrypt-1.2"]
     win = 8
     for kind in seeds:
         n = seed_len(kind)
